@@ -100,6 +100,19 @@ def bdd_stream(ctx, n, order, tts):
         if ln != len(b._succ):
             ctx.violation('C18:len', f'len(bdd) = {ln}', M.case())
         level_var = {l: int(v[1:]) for l, v in b._level_to_var.items()}
+        # exported from ONE root, the multigraph has exactly one then-edge and one
+        # else-edge per non-terminal node (read-only call, outside the session; with
+        # several roots dd re-expands a root that was already reached: not required)
+        import dd.bdd as _ddb
+        for r1 in rs[:2]:
+            g1 = _ddb.to_nx(b, {r1})
+            for u in g1.nodes:
+                outs = sorted((d['value'], v) for _, v, d in g1.out_edges(u, data=True))
+                want = [] if u == 1 else sorted([(False, abs(b._succ[u][1])), (True, abs(b._succ[u][2]))])
+                if outs != want:
+                    ctx.violation('C18:export-edge-multiplicity',
+                                  f'to_nx({{{r1}}}): node {u} has out-edges {outs}, expected {want}', M.case())
+                    break
         for opname, arg in (('to_nx', rs), ('to_dot', rs)):
             M.op(opname, arg)
             res = M.s.last_result()
